@@ -301,3 +301,19 @@ func SameRaw(a, b [8][]byte) (int, bool) {
 	}
 	return -1, true
 }
+
+// AddTo appends a block to an explicitly named day directory (raw-level writers choose the
+// directory independently of the block timestamp).
+func (s *Store) AddTo(iface string, day int64, b Block) {
+	m := s.Ifaces[iface]
+	if m == nil {
+		m = map[int64]*Day{}
+		s.Ifaces[iface] = m
+	}
+	d := m[day]
+	if d == nil {
+		d = &Day{}
+		m[day] = d
+	}
+	d.Blocks = append(d.Blocks, b)
+}
